@@ -94,7 +94,7 @@ def _has_quant(e):
 
 
 class State:
-    __slots__ = ('env', 'heap', 'pc', 'axioms', 'maxid', 'marks', 'known', 'ghost', 'ymd')
+    __slots__ = ('env', 'heap', 'pc', 'axioms', 'maxid', 'marks', 'known', 'ghost', 'ymd', 'bg')
 
     def __init__(self):
         self.env = {}
@@ -105,6 +105,7 @@ class State:
         self.marks = {}     # snapshots: name -> State
         self.known = {}     # id of a list/tuple term -> python list of its items (statically known length)
         self.ghost = {}
+        self.bg = ()        # background axioms (spec-function definitions, ln >= 0): in every VC, not in feasibility checks
         self.ymd = {}       # id of an ordinal term -> (y, m, d) constants already introduced for it
 
     def copy(self):
@@ -116,6 +117,7 @@ class State:
         s.known = self.known
         s.ghost = self.ghost
         s.ymd = self.ymd
+        s.bg = self.bg
         return s
 
     def add(self, *facts):
@@ -156,7 +158,7 @@ class State:
         return None
 
     def all_facts(self):
-        return list(self.pc) + list(self.axioms)
+        return list(self.pc) + list(self.axioms) + list(self.bg)
 
     def field(self, name):
         if name not in self.heap:
